@@ -215,6 +215,15 @@ def run(ctx):
                              f"object without a default: for a functools.partial / callable instance the handler itself raises AttributeError and the "
                              f"original failure is no longer contained", x)
     c.ob("R6", True, "containment handlers", "handler-helpers", f"{n6} package helpers called from containment handlers examined", None, nontrivial=False)
+    # ---- R7 an action list is cut short only by a contained failure ----------------------------------------
+    # (every action outside a failing one runs: nothing but an exception handler leaves the action loop early)
+    for v in VIEWS:
+        ea7 = roles(ctx, v).execute_actions
+        for l in [x for x in own_nodes(ea7.node) if isinstance(x, ast.For) and ea7.params[1:2] and norm(x.iter) == ea7.params[1]]:
+            early = [y for st_ in l.body for y in ast.walk(st_) if isinstance(y, (ast.Break, ast.Return)) and in_handler(ea7, y) is None]
+            c.ob("R7", not early, ea7, f"{v}:action-loop-left-only-by-failure", "the remaining actions are skipped only from a containment handler" if not early else
+                 f"'{stmt_text(early[0])}' leaves the action loop of {ea7.short} outside any exception handler: the actions listed after it are silently not "
+                 f"executed although nothing failed", (early or [l])[0])
     # ---- R5 async run loop survives a failing event --------------------------------
     dr = roles(ctx, "Interpreter").drain
     loop = next((l for l in own_nodes(dr.node) if isinstance(l, ast.While)), None)
